@@ -10,7 +10,7 @@ import tsgen  # noqa: E402
 from . import common as C  # noqa: E402
 
 
-def crate_source(g, entry_ctor="serde", extra_src="", extra_entries=()):
+def crate_source(g, entry_ctor="serde", extra_src="", extra_entries=(), extra_serde_entries=()):
     """Like tsgen.emit_crate_source but with `// @item` markers so rustc errors map to items."""
     out = [tsgen.HEADER, tsgen.emit_aliases(g)]
     for it in g.items:
@@ -25,6 +25,8 @@ def crate_source(g, entry_ctor="serde", extra_src="", extra_entries=()):
         out.append(f"        TypeEntry::{ctor}::<{rust}>({tsgen.rs_str(eid)}, {tsgen.rs_str(rust)}), // @entry {eid}")
     for eid, rust in extra_entries:
         out.append(f"        TypeEntry::ts::<{rust}>({tsgen.rs_str(eid)}, {tsgen.rs_str(rust)}), // @entry {eid}")
+    for eid, rust in extra_serde_entries:
+        out.append(f"        TypeEntry::serde::<{rust}>({tsgen.rs_str(eid)}, {tsgen.rs_str(rust)}), // @entry {eid}")
     out.append("    ]\n}\n")
     out.append(extra_src)
     out.append("fn main() {\n    vsupport::run(registry());\n}\n")
@@ -67,13 +69,15 @@ def drop_items(g, bad_ids):
 
 
 class Corpus:
-    def __init__(self, family, gens, entry_ctor="serde", features=(), extra_src="", extra_entries=()):
+    def __init__(self, family, gens, entry_ctor="serde", features=(), extra_src="", extra_entries=(), extra_serde_entries=(), extra_last_only=False):
         self.family = family
         self.gens = gens            # list of tsgen.Gen (already generated)
         self.entry_ctor = entry_ctor
         self.features = tuple(features)
         self.extra_src = extra_src
         self.extra_entries = tuple(extra_entries)
+        self.extra_serde_entries = tuple(extra_serde_entries)
+        self.extra_last_only = extra_last_only      # hand-written source goes into the last crate only
         self.dropped = {}           # crate -> {item id: message}
         self.names = [f"{family}_{i}" for i in range(len(gens))]
         self.sources = {}
@@ -81,9 +85,14 @@ class Corpus:
     def write(self):
         C.remove_crates(self.family + "_")
         for name, g in zip(self.names, self.gens):
-            src = crate_source(g, self.entry_ctor, self.extra_src, self.extra_entries)
+            src = self.source_of(name, g)
             self.sources[name] = src
             C.write_crate(name, src)
+
+    def source_of(self, name, g):
+        if self.extra_last_only and name != self.names[-1]:
+            return crate_source(g, self.entry_ctor)
+        return crate_source(g, self.entry_ctor, self.extra_src, self.extra_entries, self.extra_serde_entries)
 
     def build(self, max_rounds=6):
         """Build all crates; items that rustc rejects are dropped (and reported) and the build retried."""
@@ -126,7 +135,7 @@ class Corpus:
                         self.dropped.setdefault(name, {})[k] = e["message"]
                     drop_items(g, bad_items.keys())
                     progress = True
-                src = crate_source(g, self.entry_ctor, self.extra_src, self.extra_entries)
+                src = self.source_of(name, g)
                 self.sources[name] = src
                 C.write_crate(name, src)
             if not progress:
